@@ -33,6 +33,7 @@ func checkC12(ctx *core.Ctx, rep *core.Report) {
 	if ctx.Shard == 0 {
 		c12Census(ctx, rep)
 	}
+	regHistories(ctx, rep, "C12", map[string]bool{"tables": true}, regHistDepth(ctx))
 	c12Sequences(ctx, rep)
 }
 
